@@ -38,6 +38,17 @@ class X(ExprMixin, CallMixin):
             exits.append(Exit("return", st.pc, ret, st.snap(), list(st.log), None, qual))
         return exits
 
+    def run_snippet(self, src, st, qual="<snippet>", mod=None):
+        """execute client code (python source using the public API) on state st: used for with-statement contracts"""
+        tree = ast.parse(src)
+        self.cur_mod = mod or self.cur_mod
+        self.cur_qual = qual
+        self.exits = []
+        self.block(tree.body, st)
+        exits = list(self.exits)
+        if not st.dead: exits.append(Exit("return", st.pc, NONE, st.snap(), list(st.log), dict(st.env), qual))
+        return exits
+
     # ------------------------------------------------------------------ statements
     def block(self, stmts, st):
         for s in stmts:
